@@ -6247,6 +6247,11 @@ class NetCDFRead(IORead):
             # without reading the data, so set it to None for now.
             dtype = None
 
+        if dtype is not None and dtype.byteorder in "<>":
+            # The byte order in the file is a storage detail: data are
+            # presented in the native byte order.
+            dtype = dtype.newbyteorder("=")
+
         if dtype is not None and unpacked_dtype is not False and g["unpack"]:
             # The data type after unpacking. (When the data are not
             # to be unpacked, their data type is that of the netCDF
